@@ -87,6 +87,15 @@ struct W {
   }
   void feed_all() { int guard = 0; while (out_avail() && vk::pending_read() && guard++ < 64) { feed(out_avail()); vk::drain(); } }
 
+  // let virtual time pass until timer t fires: timers with earlier deadlines (e.g. the 3 s sentry) fire first
+  bool fire_until(vk::timer_rec* t) {
+    for (int g = 0; g < 64 && t->armed; g++) {
+      if (vk::timer_can_fire(t)) { vk::timer_fire(t); vk::drain(); return true; }
+      vk::timer_rec* best = nullptr; for (auto* o : vk::world().timers) if (o != t && o->armed && vk::timer_can_fire(o)) { best = o; break; }
+      if (!best) return false; vk::timer_fire(best); vk::drain();
+    }
+    return false;
+  }
   // ------------------------------------------------------------ bring the client to "connected, CONNACK processed"
   void start(const char* hosts = "a") {
     c.brokers(hosts, 1883);
@@ -101,7 +110,7 @@ struct W {
       if (vk::pending_resolve() || vk::pending_connect()) break;
       // a reconnect that wrapped around the broker list pauses on the connect timer (timer #1 of the client) first
       vk::timer_rec* t = vk::world().timers.size() > 1 ? vk::world().timers[1] : nullptr;
-      if (t && t->armed && vk::timer_can_fire(t)) { last_backoff_ms = t->dur_ms; vk::timer_fire(t); vk::drain(); } else break;
+      if (t && t->armed) { last_backoff_ms = t->dur_ms; if (!fire_until(t)) break; } else break;
     }
     if (auto* r = vk::pending_resolve()) { vk::complete_resolve(r, {}, 1); vk::drain(); }
     vk::sock_rec* s = vk::pending_connect(); if (!s) return false;
